@@ -45,7 +45,7 @@ for pid, (ops, text) in sorted(CLAIMS.items()):
     })
 m = {
     "version": 1,
-    "setup_cmd": "cd /verif/weaver && CARGO_NET_OFFLINE=true cargo build --release --offline --target-dir /verif/build/weaver-target",
+    "setup_cmd": "cd /verif/weaver && CARGO_NET_OFFLINE=true cargo build --release --offline --target-dir /verif/build/weaver-target && cd /verif/replay && CARGO_NET_OFFLINE=true cargo build --release --offline --target-dir /verif/build/replay-target",
     "hooks": {"guard": "callbag_verif", "enable": "none needed: contracts are woven outside /repo from rustc's expansion of the unmodified sources", "baseline_off_cmd": "cd /repo && cargo test --workspace --no-fail-fast --offline", "source_commits": [], "add_only": True},
     "engines": [{"name": "verus-weave", "path": "/verif/bin/check.py", "serves_properties": sorted(CLAIMS), "kind_free_text": "expand (rustc) -> weave (syn) -> Verus -> classify"}],
     "checks": checks,
